@@ -184,6 +184,28 @@ fn wconcurrent(p: &Params) -> Program {
             }),
         ],
         1 => vec![wload_cas(1), wload_cas(2)],
+        3 => vec![
+            // the cell holds x unstamped, the expected value is x stamped; while the exchange
+            // retries, another thread stores x again carrying exactly the expected value's stamp
+            body(|c, w| {
+                let des = w.weak[1].take();
+                let g = c.pin();
+                let s = c.load(&w.roots[1], &g);
+                let exp = c.sdowngrade(s);
+                match c.wcas(&w.wroots[0], exp, des, &g, false) {
+                    Ok(old) => c.wdrop(old),
+                    Err((des, _)) => c.wdrop(des),
+                }
+                c.unpin(g);
+            }),
+            body(|c, w| {
+                let g = c.pin();
+                let s = c.load(&w.roots[1], &g);
+                let stamped = c.ws_counted(c.sdowngrade(s));
+                c.wstore(&w.wroots[0], stamped, &g);
+                c.unpin(g);
+            }),
+        ],
         _ => vec![
             // expected value obtained from an AtomicRc written at another epoch
             body(|c, w| {
